@@ -82,6 +82,41 @@ PROPS = {
         ],
         "assumptions": [],
     },
+    "C06": {
+        "required_theorems": ["c06_exit_quiescent", "c06_quiet_pass_calls", "c06_progress_continues",
+                              "c06_quiescent_is_fixpoint"],
+        "runs": [
+            {"sub": "sched", "quick": ["--seed", "{seed}", "--what", "st", "--cases", 4000],
+             "thorough": ["--seed", "{seed}", "--what", "st", "--cases", 400000]},
+        ],
+        "rule": "random scripted blocks (1-5 blocks, scripts of 0-8 calls over Again/Pending/WaitForFunc/WaitForStream"
+                "(closed?)/EOF/Err, each call optionally moving a sample through a private real stream, optional "
+                "cancellation during the c-th call) run on the real Graph::run; the exact call log and result are compared "
+                "with the Lean model stRun. distinct = distinct script set.",
+        "trusted_base": GLOBAL_TB + [
+            "modelled, not verified: the stream activity counter is thread-local and ticks exactly when samples/packets are "
+            "committed or consumed (checked by the scripted correspondence: calls flagged 'm' move one real sample)",
+            "the abstract fixpoint theorem assumes the block contract 'a quiet call changes nothing' (C09)",
+        ],
+        "assumptions": ["blocks are deterministic functions of their state and their streams"],
+    },
+    "C07": {
+        "required_theorems": ["c07_cancel_st", "c07_cancel_mt", "c07_error_st", "c07_error_mt_thread", "c07_error_mt"],
+        "runs": [
+            {"sub": "sched", "quick": ["--seed", "{seed}", "--cases", 1500, "--mt-cases", 300, "--cancels", 60],
+             "thorough": ["--seed", "{seed}", "--cases", 100000, "--mt-cases", 20000, "--cancels", 3000],
+             "timeout": 20000},
+        ],
+        "rule": "scripted blocks on the real Graph and MTGraph: a failing block at every position and call index (random), "
+                "several failing blocks at once, cancellation from inside a call and from another thread after a random "
+                "delay, infinite sources; call logs / per-thread call counts / results compared with the Lean models; bounds "
+                "on calls begun after cancellation and 'all block threads finished' are self-checking lines.",
+        "trusted_base": GLOBAL_TB + [
+            "modelled, not verified: std::thread spawn/join, AtomicBool token; a block thread's loop is modelled per thread",
+            "PARTIAL: wall-clock bounds (100 ms waits, OS scheduling) are assumed",
+        ],
+        "assumptions": [],
+    },
 }
 
 MANIFEST_TEXT = {
@@ -131,6 +166,29 @@ MANIFEST_TEXT = {
         "note": "PARTIAL for 'bounded number of waits': completion of a wait call (OS scheduling, 100 ms timeout) is assumed. "
                 "Trusted: extract.py's textual-order reading of straight-line code; strong_count semantics.",
         "technique": "Lean 4 proof over translator-generated decision programs + hook-driven race replay on real threads",
+    },
+    "C06": {
+        "text": "Lean 4 theorems about stRun, a line-for-line model of Graph::run over blocks that are ARBITRARY scripts "
+                "(so for every block behaviour and every add order): run() returns Ok without cancellation only after a pass "
+                "in which no block failed, none answered Again/Pending and no stream activity happened; a pass that moved "
+                "data is never the last; and, for deterministic blocks whose quiet calls change nothing, such a state is a "
+                "fixpoint (no block can make further progress). The model is tied to the real runner by exact call-log "
+                "comparison on random scripted blocks. The 'reference result' half is shared with C05.",
+        "design_ref": "DESIGN.md section 2, C06",
+        "note": "The runner defect (done-rule ignored progress) was repaired by a fix: commit; the model mirrors the fixed code. "
+                "Trusted: the activity counter semantics; block contract premise for the fixpoint theorem.",
+        "technique": "Lean 4 proof over a scripted-block model of Graph::run + exact call-log correspondence",
+    },
+    "C07": {
+        "text": "Lean 4 theorems about the runner models for arbitrary block scripts: after cancellation the single-threaded "
+                "runner begins at most the rest of the current pass (a strictly increasing block sequence, so <= 1 call per "
+                "block); a block thread of the multithreaded runner makes no call after seeing the token; a failing work() "
+                "makes Graph::run return that error immediately and MTGraph::run return Err after joining all threads (never "
+                "Ok). Tied to the real runners by scripted blocks (call logs, per-thread counts, results) plus self-checking "
+                "cancellation runs from another thread with infinite sources.",
+        "design_ref": "DESIGN.md section 2, C07",
+        "note": "PARTIAL on wall-clock boundedness. The MTGraph panic on block error was repaired by a fix: commit.",
+        "technique": "Lean 4 proof over scripted-block runner models + call-log correspondence + cancellation replays",
     },
 }
 
